@@ -342,7 +342,7 @@ def part_base(part):
 def pattern_for(draw, part):
     n = len(part_content(part))
     kinds = ['skip', 'read', 'read', 'read_all', 'chunked', 'data', 'data2', 'text', 'read_until', 'readline', 'pipe',
-             'iter', 'read_then_data']
+             'iter', 'read_then_data', 'ru_then_read', 'lines', 'exhaust']
     if part_base(part) == 'application/json':
         kinds += ['media'] * 6
     k = draw(st.sampled_from(kinds))
@@ -350,7 +350,7 @@ def pattern_for(draw, part):
         return [k, draw(st.one_of(st.integers(0, n + 2), st.integers(0, 3)))]
     if k == 'chunked':
         return [k, draw(st.integers(1, 9))]
-    if k == 'read_until':
+    if k in ('read_until', 'ru_then_read'):
         return [k, draw(st.sampled_from(READ_UNTIL_X))]
     return [k]
 
@@ -376,6 +376,7 @@ def valid_cases(draw):
     body, _ = encode(form)
     return {'form': form,
             'patterns': [draw(pattern_for(p)) for p in form['parts']],
+            'default_charset': draw(st.sampled_from([None, None, None, 'iso-8859-1', 'ascii'])),
             'transport': draw(transports(form, len(body)))}
 
 
@@ -394,7 +395,7 @@ def big_cases(draw):
     edge = draw(st.sampled_from([step, step, 2 * step, 32768, 32768, 32768, 4 * step, 65536]))
     dlen = len(delimiter(form))
     # the edge falls somewhere inside the hostile tail of the content or inside the delimiter that follows it
-    off = draw(st.integers(-dlen - 2, min(len(form['parts'][i]['content']), 40) + 2))
+    off = draw(st.one_of(st.integers(-dlen - 1, 1), st.integers(-dlen - 2, min(len(form['parts'][i]['content']), 40) + 2)))
     ce = layout['parts'][i]['content'][1]
     pad = edge + off - ce
     while pad < 0:
@@ -403,13 +404,17 @@ def big_cases(draw):
     form['parts'][i]['content'] = sanitize_content(form['parts'][i]['content'], form)
     # the sync reader only checks a chunk edge for a straddling delimiter when the following chunk is not the
     # last one, i.e. when at least another 32 KiB follow
-    more = draw(st.sampled_from(['none', 'none', 'epilogue', 'last_part']))
+    more = draw(st.sampled_from(['none', 'epilogue', 'epilogue', 'last_part']))
     if more == 'epilogue':
         form['tail_pad'] = 40000
     elif more == 'last_part' and i < len(form['parts']) - 1:
         form['parts'][-1]['pad'] = 40000
+    patterns = [draw(pattern_for(p)) for p in form['parts']]
+    if draw(st.booleans()):
+        patterns[i] = draw(st.sampled_from([['read_all'], ['data'], ['data2'], ['pipe'], ['iter'], ['chunked', 8192],
+                                            ['read', 100000], ['skip']]))
     return {'form': form,
-            'patterns': [draw(pattern_for(p)) for p in form['parts']],
+            'patterns': patterns,
             'transport': {
                 'short': draw(st.lists(st.sampled_from([0, 0, 1000, 4096, 8192, 32768, 5000]), min_size=1, max_size=3)),
                 'events': [ev],
@@ -497,7 +502,7 @@ def sweep_cases(tier):
                     pats.append(['read', 1] if j % 2 == 0 else ['read_until', b'\n'])
                 else:
                     pats.append([preset])
-            for cs_add in ((0, 1, 2, 5) if tier == 'quick' else range(0, 12)):
+            for cs_add in ((0, 1, 2, 3, 5, 8) if tier == 'quick' else range(0, 16)):
                 for k in range(0, len(body) + 1):
                     yield {'form': form, 'patterns': pats,
                            'transport': {'short': [k, 0, 0, 0, 0, 0, 0, 0], 'events': [k or 1, len(body) + 1], 'preload': bool(k % 2),
@@ -508,8 +513,8 @@ def corrupt_enum_cases(tier):
     """All single-byte replacements / deletions / insertions at every position and every truncation of the
     fixed small forms (bodies <= 120 bytes)."""
     if tier == 'quick':
-        forms_ = SMALL_FORMS[:3]
-        bytes_ = [0x0d, 0x0a, 0x2d, 0xff, 0x62]
+        forms_ = SMALL_FORMS[:4]
+        bytes_ = [0x0d, 0x0a, 0x2d, 0xff, 0x62, 0x22, 0x3a, 0x00]
     else:
         forms_ = SMALL_FORMS
         bytes_ = EDIT_BYTES + [0x62, 0x42, 0x78]
@@ -536,3 +541,23 @@ def json_value(content):
         return ('ok', repr(json.loads(content.decode('utf-8'))))
     except ValueError:
         return ('err', 'MediaMalformedError')
+
+
+def header_param_cases(tier):
+    """Content-Type header variants for one fixed body with boundary 'abc': [header value, expected] where expected is
+    'ok' (the form must parse to its one part) or 'invalid' (a 4xx HTTPError must be raised by get_media())."""
+    ok = ['multipart/form-data; boundary=abc', 'multipart/form-data; boundary="abc"', 'multipart/form-data;boundary=abc',
+          'multipart/form-data; charset=utf-8; boundary=abc', 'multipart/form-data; boundary=abc; charset=utf-8',
+          'multipart/form-data; BOUNDARY=abc', 'multipart/form-data; Boundary="abc"',
+          # RFC 2046 5.1.1: white space at the end of the boundary was added by a gateway and must be deleted
+          'multipart/form-data; boundary="abc "', 'multipart/form-data; boundary="abc   "', 'multipart/form-data; boundary=abc ']
+    bad = ['multipart/form-data', 'multipart/form-data; charset=utf-8', 'multipart/form-data; boundary=',
+           'multipart/form-data; boundary=""', 'multipart/form-data; boundary=" "',
+           'multipart/form-data; boundary=' + 'a' * 71, 'multipart/form-data; boundary="%s"' % ('a' * 71),
+           'multipart/form-data; boundary=' + 'a' * 200]
+    for v in ok:
+        yield {'content_type': v, 'expect': 'ok', 'boundary': 'abc'}
+    for v in bad:
+        yield {'content_type': v, 'expect': 'invalid', 'boundary': 'abc'}
+    for n in (69, 70):
+        yield {'content_type': 'multipart/form-data; boundary=' + 'a' * n, 'expect': 'ok', 'boundary': 'a' * n}
